@@ -4,7 +4,8 @@ sys.path.insert(0, os.path.dirname(os.path.abspath(__file__)))
 import framework
 from framework import run_property
 import bbs_tables as T
-import rf_hash, rf_gates, rf_consts, rf_panic, rf_frame, rf_rand, rf_codec
+import rf_hash, rf_gates, rf_consts, rf_panic, rf_frame, rf_rand, rf_codec, rf_bits
+import cl03_rules as CL
 
 BBS_SCOPE = ('bbsplus::', 'utils::util::bbsplus_utils', 'utils::message::bbsplus_message')
 
@@ -182,6 +183,68 @@ def P(pid):
                                'selected is values[update_index + 1] as in sign/verify; update_signature reaches the same interface constants as sign; '
                                'the crate has no state besides arguments, so a history of updates is a composition of single steps. The group algebra '
                                '(A\' = B\'/(sk+e)) and wrong-old-value behaviour are not decided.')
+    elif pid == 'C13':
+        R = [
+            ('RF-D CL03 verify gates (equation, e range, attribute range)', lambda c: rf_gates.rule_accept_requirements(c, CL.C13_REQS), 6),
+            ('RF-Q issued exponent leaves the loop only when valid', CL.rule_e_loop_exit, 3),
+        ]
+        meta['explanation'] = ('CL03 is analysed in the all-features configuration the baseline never builds. Decided (necessary): verify / verify_multiattr accept only through '
+                               'the equation comparison (depending on v, e, s, bases, attributes, b, c, N), the lower bound on e and a comparison of every attribute with 2^lm '
+                               '(excludes the (v*a^k, m+k*e) forgeries); (complete, given next_prime) sign / sign_multiattr / blind_sign leave the generate-and-test loop only with '
+                               '2^(le-1) < e < 2^le and gcd(e, phi) = 1, e = random_prime(le). The modular algebra is not decided.')
+    elif pid == 'C14':
+        R = [
+            ('RF-D blind_sign gated by verify_proof', CL.rule_blind_sign_gated, 3),
+            ('RF-D verify_proof gates', lambda c: rf_gates.rule_accept_requirements(c, CL.C14_REQS), 4),
+            ('RF-B commit / prove base agreement', CL.rule_commit_prove_base_agreement, 3),
+            ('RF-J carried commitments are equated', CL.rule_carried_commitment_equalities, 6),
+            ('RF-K every ZKPoK leaf gates acceptance', lambda c: CL.rule_every_leaf_gates(c, which=('zkpok',)), 40),
+        ]
+        meta['explanation'] = ('Decided (necessary): every use of the secret key in blind_sign is dominated by verify_proof == true on the very C, C_trusted, pk, bases, key and positions '
+                               'that are signed; verify_proof is gated by the multi-secret PoK, the per-attribute PoKs / range proofs and the PoK / range proof of r; each per-attribute commitment '
+                               'is built over the base its proof uses (the defect that broke hidden positions other than 0); every carried commitment is equated with the value it must be about; '
+                               'every serialised leaf of the ZKPoK influences a comparison the verdict depends on (the commitment randomness leaves do not: known finding). Unblinding algebra is not decided.')
+    elif pid == 'C15':
+        R = [
+            ('RF-C nisp5 challenge ingredients', CL.rule_nisp5_challenge, 20),
+            ('RF-D proof_verify gates', lambda c: rf_gates.rule_accept_requirements(c, CL.C15_REQS), 3),
+            ('RF-J carried commitments are equated', CL.rule_carried_commitment_equalities, 6),
+            ('RF-K every PoKSignature leaf gates acceptance', lambda c: CL.rule_every_leaf_gates(c, which=('pok',)), 40),
+        ]
+        meta['explanation'] = ('Decided (necessary): the recomputed challenge equality gates acceptance and depends on all nine responses, the four commitment values, both keys, the bases, the revealed '
+                               'attributes and the attribute count; Ce is equated with the range proof on e and each per-attribute commitment with its range proof; every serialised leaf of the proof '
+                               'influences a comparison (the commitment randomness leaves do not: known finding). Completeness algebra and soundness of the nine-response protocol are not decided.')
+    elif pid == 'C16':
+        R = [
+            ('RF-D range proof gates', lambda c: rf_gates.rule_accept_requirements(c, CL.C16_REQS), 7),
+            ('RF-J proofs of square are about the decomposition', CL.rule_carried_commitment_equalities, 6),
+            ('RF-C Fiat-Shamir ingredients', CL.rule_range_proof_hash_sites, 15),
+        ]
+        meta['explanation'] = ('Decided (necessary): acceptance of a Boudot range proof is gated by E\' == E^(2^T), the two decomposition equalities, both proofs of square and both larger-interval '
+                               'proofs, each depending on the commitment, bases, modulus and bounds; the commitment carried by each proof of square is equated with E_a_1 / E_b_1 (the transplant defect); '
+                               'the four Fiat-Shamir hashes contain what they must. Completeness for in-range values and the soundness bounds are not decided.')
+    elif pid == 'C17':
+        R = [
+            ('RF-I no opening in the serialised proof types', CL.rule_no_opening_serialised, 4),
+        ]
+        meta['explanation'] = ('Decided completely for the structural reading: the leaves the (derived) Serialize impls of CL03ZKPoK and CL03PoKSignature emit are enumerated from the resolved impl bodies; '
+                               'none may be the randomness of a commitment to a hidden value. On this tree seven such leaves are emitted (known findings: the repair changes the wire format). '
+                               'Computational hiding is not decided.')
+    elif pid == 'C18':
+        R = [
+            ('RF-Q key / parameter generation loops and shapes', rf_bits.rule_key_generation, 18),
+            ('RF-Q random helpers', rf_bits.rule_random_helpers, 6),
+        ]
+        meta['explanation'] = ('Decided (complete given the rug contracts is_probably_prime / next_prime / secure_pow_mod): both copies of the safe-prime search leave each loop only after the primality '
+                               'test (and p != q), p = 2 p\' + 1 with p\' = random_prime(SECPARAM); b, c, a_i, h are random_qr(N) = r^2 mod N accepted only if > 1 and coprime to N; every g_i is a power of h '
+                               'stored only after the > 1 / gcd test; random_bits sets bit n - 1; rand_int = a + random_below(b - a + 1); all seeds come from thread_rng. Primality itself and codec round trips are not decided.')
+    elif pid == 'C19':
+        R = [
+            ('RF-H response masks vs challenge / secret lengths', rf_bits.rule_response_masking, 17),
+        ]
+        meta['explanation'] = ('Decided completely for the two quotient attacks the property names, by bit-length arithmetic over the MIR evaluated for CL1024/2048/3072: every response mask + challenge * secret '
+                               'in the four sigma-protocol provers must have mask_bits >= 256 + 65 (N1), and for responses whose secrets differ by one factor the denominator mask must dominate its product (N2). '
+                               'On this tree 3 N1 and 2 N2 violations exist (known findings: choosing new lengths is a protocol decision). Statistical distance as a number is not decided.')
     return R, meta
 
 
